@@ -87,6 +87,13 @@ def flatten(b, ctx: BitCtx, problems):
         elif k == "crc16":
             out.append(("crc16", it.a[0]))
         elif k == "alt":
+            # lemma: alt(len(x) > 0 ? <bytes(x)> : <>) == <bytes(x)>   (extending by an empty string is a no-op)
+            c, a1, a2 = it.a
+            if c.k == "op" and c.a[0] in (">", "!=") and is_const(c.a[2], 0) and len(a2.a[0]) == 0 and len(a1.a[0]) == 1 \
+                    and a1.a[0][0].k == "bytes" and linearize(c.a[1]).key() == linearize(length(a1.a[0][0].a[0])).key():
+                t = a1.a[0][0].a[0]
+                out.append(("bytes", canon_bytes_key(t), repr(linearize(length(t)))))
+                continue
             out.append(("alt", show(it.a[0]), flatten(it.a[1], ctx, problems), flatten(it.a[2], ctx, problems)))
         elif k == "rep":
             out.append(("rep", show(it.a[0]), flatten(it.a[1], ctx, problems)))
